@@ -16,18 +16,25 @@ type gParam struct {
 	Type    string
 	Name    string
 	OutName string `json:",omitempty"`
+	Help    string `json:",omitempty"`
+}
+
+type gStructDef struct {
+	Name   string
+	Fields []gParam
 }
 
 type gStage struct {
-	Name     string
-	Ins      []gParam
-	Outs     []gParam
-	Split    bool
-	ChunkIns []gParam `json:",omitempty"`
-	Lang     string
-	Src      string
-	MemGB    int      `json:",omitempty"`
-	Retain   []string `json:",omitempty"`
+	Name      string
+	Ins       []gParam
+	Outs      []gParam
+	Split     bool
+	ChunkIns  []gParam `json:",omitempty"`
+	ChunkOuts []gParam `json:",omitempty"`
+	Lang      string
+	Src       string
+	MemGB     int      `json:",omitempty"`
+	Retain    []string `json:",omitempty"`
 }
 
 type gBind struct {
@@ -61,6 +68,8 @@ type gPipe struct {
 	Outs  []gParam
 	Calls []gCall
 	Ret   []gBind
+	// `retain (CALL.out, …)`
+	Retain []string `json:",omitempty"`
 }
 
 type gDecl struct {
@@ -89,7 +98,8 @@ func (d *gDecl) outs() []gParam {
 
 type gProg struct {
 	Filetypes []string
-	Decls     []gDecl // callee before caller; the last one is the top pipeline
+	Structs   []gStructDef `json:",omitempty"`
+	Decls     []gDecl      // callee before caller; the last one is the top pipeline
 	Top       gCall
 	// rendering options (cosmetic by construction)
 	Style    int
@@ -172,6 +182,11 @@ func gLit(rng *rand.Rand, p *gProg, t string, wide bool) string {
 	case "bool":
 		return []string{"true", "false"}[rng.Intn(2)]
 	}
+	for _, st := range p.Structs {
+		if st.Name == t {
+			return "null" // (a literal would tie the program to the current definition)
+		}
+	}
 	// file types
 	if rng.Intn(3) == 0 {
 		return "null"
@@ -235,7 +250,8 @@ func gPick(rng *rand.Rand, srcs []gSrc, t string) (string, bool) {
 func gGenProg(rng *rand.Rand, wide bool) *gProg {
 	p := &gProg{Filetypes: []string{"txt", "json", "bam"}, Style: rng.Intn(3), Comments: rng.Intn(2) == 0, Layout: rng.Intn(3)}
 	// txt / json are used in scalar positions only; bam also in arrays
-	types := []string{"int", "float", "string", "bool", "int[]", "string[]", "map<int>", "txt", "json", "bam", "bam[]", "float", "int"}
+	p.Structs = []gStructDef{{Name: "Pt", Fields: []gParam{{Type: "int", Name: "x"}, {Type: "string", Name: "label"}}}}
+	types := []string{"int", "float", "string", "bool", "int[]", "string[]", "map<int>", "txt", "json", "bam", "bam[]", "float", "int", "Pt"}
 	nst := 2 + rng.Intn(3)
 	uniq := func(used map[string]bool, base string) string {
 		for i := 0; ; i++ {
@@ -483,7 +499,9 @@ func gRenderParam(sb *strings.Builder, st int, mode string, pr gParam) {
 		fmt.Fprintf(sb, "\t%s %s %s", mode, pr.Type, pr.Name)
 	}
 	if pr.OutName != "" {
-		fmt.Fprintf(sb, " \"\" %q", pr.OutName)
+		fmt.Fprintf(sb, " %q %q", pr.Help, pr.OutName)
+	} else if pr.Help != "" {
+		fmt.Fprintf(sb, " %q", pr.Help)
 	}
 	sb.WriteString(",\n")
 }
@@ -557,6 +575,9 @@ func gRenderDecl(p *gProg, d *gDecl) string {
 			for _, pr := range s.ChunkIns {
 				gRenderParam(&sb, st, "in", pr)
 			}
+			for _, pr := range s.ChunkOuts {
+				gRenderParam(&sb, st, "out", pr)
+			}
 			sb.WriteString(")")
 		}
 		if s.MemGB > 0 {
@@ -590,7 +611,15 @@ func gRenderDecl(p *gProg, d *gDecl) string {
 		for _, b := range pp.Ret {
 			fmt.Fprintf(&sb, "        %s = %s,\n", b.Id, b.Exp)
 		}
-		sb.WriteString("    )\n}\n")
+		sb.WriteString("    )\n")
+		if len(pp.Retain) > 0 {
+			sb.WriteString("\n    retain (\n")
+			for _, x := range pp.Retain {
+				fmt.Fprintf(&sb, "        %s,\n", x)
+			}
+			sb.WriteString("    )\n")
+		}
+		sb.WriteString("}\n")
 	}
 	if st == 2 {
 		sb.WriteString("\n\n")
@@ -610,6 +639,13 @@ func gRender(p *gProg) (files map[string]string, invocation string) {
 		fmt.Fprintf(&ft, "filetype %s;\n", f)
 	}
 	ft.WriteString("\n")
+	for _, st := range p.Structs {
+		fmt.Fprintf(&ft, "struct %s(\n", st.Name)
+		for _, f := range st.Fields {
+			fmt.Fprintf(&ft, "    %s %s,\n", f.Type, f.Name)
+		}
+		ft.WriteString(")\n\n")
+	}
 	switch p.Layout {
 	case 0:
 		var sb strings.Builder
